@@ -222,6 +222,16 @@ def run(ctx):
                     out_name = st.targets[0].id
         # a binary read that did not pick a codec by extension: fp unset, not writing, binary
         val = {fp_name: False, out_name: False, bin_name: True, f"{fp_name} is None": True, f"{mode_p} in ('w', 'wb')": False}
+        # plain copies (a = b) carry the same value: give every member of a copy class the value of the class
+        changed_ = True
+        while changed_:
+            changed_ = False
+            for st in walk_no_nested(open_path):
+                if isinstance(st, ast.Assign) and len(st.targets) == 1 and isinstance(st.targets[0], ast.Name) and isinstance(st.value, ast.Name):
+                    a_, b_ = st.targets[0].id, st.value.id
+                    if b_ in val and a_ not in val:
+                        val[a_] = val[b_]
+                        changed_ = True
         call_node = pcfg.node_of(os_calls[0]).id
         feasible = logic.reachable_assuming(pcfg, pcfg.entry, lambda a: val.get(a))
         # ... among the feasible paths, none may reach a return without passing the open_stream call
